@@ -128,3 +128,17 @@ seed('c13-remove-no-pass', 'C13', [(GRIDN, "                    c->neighbors--;\
 seed('c13-add-wrong-heap', 'C13', [(GRIDB, "            if (cell->border)\n                external_.insert(ccell);\n            else\n                internal_.insert(ccell);", "            if (cell->border)\n                internal_.insert(ccell);\n            else\n                external_.insert(ccell);")], 'R13c')
 seed('c13-n-direct-assign', 'C13', [(GRIDN, "                    c->neighbors--;\n                    if (!c->border && c->neighbors < interiorCellNeighborsLimit_)\n                        c->border = true;", "                    c->neighbors--;\n                    c->border = c->neighbors < interiorCellNeighborsLimit_;")], None)
 seed('c13-n-loop-upwards', 'C13', [(GRID, "for (int i = dimension_ - 1; i >= 0; --i)\n            {\n                coord[i]--;", "for (int i = 0; i < (int)dimension_; ++i)\n            {\n                coord[i]--;")], None)
+
+# ---- C10 -------------------------------------------------------------------------------------------------------
+GNATN = 'src/ompl/datastructures/NearestNeighborsGNATNoThreadSafety.h'
+SQRT = 'src/ompl/datastructures/NearestNeighborsSqrtApprox.h'
+LINEAR = 'src/ompl/datastructures/NearestNeighborsLinear.h'
+seed('c10-filter-dropped', 'C10', [(GNAT, "                for (const auto &d : data_)\n                    if (!gnat.isRemoved(d))\n                        insertNeighborR(nbh, r, d, gnat.distFun_(data, d));", "                for (const auto &d : data_)\n                    insertNeighborR(nbh, r, d, gnat.distFun_(data, d));")], 'R10a')
+seed('c10-no-rebuild-on-pivot', 'C10', [(GNAT, "if (isPivot || removed_.size() >= removedCacheSize_)", "if (removed_.size() >= removedCacheSize_)")], 'R10b')
+seed('c10-size-dec-missing', 'C10', [(GNAT, "            removed_.insert(d);\n            size_--;", "            removed_.insert(d);")], 'R10b')
+seed('c10-prune-sign', 'C10', [(GNAT, "if (nodeDist.second > nodeDist.first->maxRadius_ + dist ||\n                    nodeDist.second < nodeDist.first->minRadius_ - dist)", "if (nodeDist.second > nodeDist.first->maxRadius_ - dist ||\n                    nodeDist.second < nodeDist.first->minRadius_ - dist)")], 'R10d')
+seed('c10-prune-sign-nts', 'C10', [(GNATN, "if (node->distToPivot_ > node->maxRadius_ + dist || node->distToPivot_ < node->minRadius_ - dist)\n                    continue;", "if (node->distToPivot_ > node->maxRadius_ + dist || node->distToPivot_ < node->minRadius_ + dist)\n                    continue;")], 'R10d')
+seed('c10-k-guard-dropped', 'C10', [(GNAT, "if (nbhQueue.size() == k && (nodeDist.second > nodeDist.first->maxRadius_ + dist ||", "if ((nodeDist.second > nodeDist.first->maxRadius_ + dist ||")], 'R10d')
+seed('c10-sqrt-no-refresh', 'C10', [(SQRT, "            bool result = NearestNeighborsLinear<_T>::remove(data);\n            if (result)\n                updateCheckCount();", "            bool result = NearestNeighborsLinear<_T>::remove(data);")], 'R10e')
+seed('c10-updaterange-swapped', 'C10', [(GNAT, "                if (minRange_[i] > dist)\n                    minRange_[i] = dist;", "                if (minRange_[i] < dist)\n                    minRange_[i] = dist;")], 'R10g')
+seed('c10-n-rearranged', 'C10', [(GNAT, "if (nodeDist.second > nodeDist.first->maxRadius_ + dist ||\n                    nodeDist.second < nodeDist.first->minRadius_ - dist)", "if (nodeDist.second - dist > nodeDist.first->maxRadius_ ||\n                    nodeDist.second + dist < nodeDist.first->minRadius_)")], None)
